@@ -1171,3 +1171,36 @@ def check_row_line_not_empty(ctx, rep, w, residual=True):
     else:
         rep.bad("T-CELL", "T-CELL:row-line-not-empty", w.where(sw), "a row without a value in a single-column grid is written as an empty line, which readers skip or take as the end of the grid: the row (and with a reference reader every row after it) is lost")
     return 1
+
+
+def check_parsed_elements_kept(ctx, rep):
+    """every element the Zinc reader parses inside a collection is stored: the insert / push that puts a parsed value into the dict,
+    list or row is not conditional on a property of that value (a reader that leaves out `N` cells turns an explicit Null into a
+    missing cell). The `?` on the parse itself is the only condition on the value"""
+    prog = ctx.prog
+    n = 0
+    for b in prog.bodies.values():
+        if "/zinc/decode/complex/" not in b.file or "::test" in b.id:
+            continue
+        for bi, t in b.calls():
+            nm = strip_generics(mir.callee_name(t) or "")
+            if not nm.endswith(("BTreeMap::insert", "Vec::push", "Dict::insert")):
+                continue
+            vals = [G.expand_locals(b, repr(G.describe(b, a))) for a in t["args"][1:]]
+            if not any("parse_value(" in v or "parse_nested_value(" in v for v in vals):
+                continue
+            n += 1
+            fn = strip_generics(b.rec.get("root", b.id)).split("::")[-1]
+            key = "parsed-element-kept:%s:%s" % (fn, nm.split("::")[-1])
+            offending = []
+            for g in G.guards_at(b, bi):
+                if g.a is None:
+                    continue
+                r = G.expand_locals(b, repr(g.a))
+                if ("parse_value(" in r or "parse_nested_value(" in r) and g.a.kind == "call" and not strip_generics(g.a.v).endswith(("Parser::parse_value", "Parser::parse_nested_value", "Try>::branch")):
+                    offending.append(strip_generics(g.a.v).split("::")[-1])
+            if offending:
+                rep.bad("T-KEEP", "T-KEEP:" + key, b.where(bi), "%s stores the parsed value only under %s of that value: values for which the test fails are read and then left out" % (fn, offending))
+            else:
+                rep.ok("T-KEEP", key, b.where(bi), "stored whatever its value")
+    return n
